@@ -438,7 +438,7 @@ def operator_suite(chk, w, rule, nmax, orders=(0, 1, 2, 3), cases=None, ns=None,
                             ok, why = valid_spline(w, r, n)
                             if ok:
                                 view = spline_view(w, r)
-                                if not same_window(view[0], wa) and (wa[1] - wa[0] >= 2):
+                                if not same_window(view[0], wa):   # also for point-like and empty operands
                                     ok, why = False, "result support %s differs from the operand's %s" % (view[0], wa)
                                 else:
                                     ok, why = _expect_coeffs_exact(view, n, want, out_order, ina, want_lin, want_mono)
